@@ -76,7 +76,9 @@ func (k Keeper) AddAllowedBidders(ctx context.Context, auctionId uint64, allowed
 		if err != nil {
 			return err
 		}
-		if err := k.AllowedBidder.Set(ctx, collections.Join(auctionId, bidder), ab); err != nil {
+		// Store the entry under the auction it is added to, with the canonical
+		// spelling of the bidder address that bids are recorded with.
+		if err := k.AllowedBidder.Set(ctx, collections.Join(auctionId, bidder), types.NewAllowedBidder(auctionId, bidder, ab.MaxBidAmount)); err != nil {
 			return err
 		}
 	}
